@@ -47,6 +47,13 @@ EXPLANATION = (
     "values. Decides these structural conditions; OS-level behaviour is "
     "not decided.")
 
+EXPLANATION += (
+    ' Added after the seeded rounds: per function, a listed directory '
+    'was created by the lister under a unique name or handed over '
+    'whole; no predictable file name directly under a scratch '
+    'parameter.'
+)
+
 RULE_TEXT = (
     "one obligation per (CLI runner, input key), per write effect root, "
     "per temp acquisition and exit-set mode, per listing, per worker "
